@@ -67,6 +67,10 @@ pub trait Fmt: Sized {
     fn cause(_x: &[u8], _b1: &[u8]) -> Option<String> {
         None
     }
+    /// `CascFormat::verify_round_trip(x).is_ok()` (None: the format has no `CascFormat` impl)
+    fn verify_(_x: &[u8]) -> Option<bool> {
+        None
+    }
 }
 
 /// TVFS: width of the EST / CFT offset fields implied by a serialised header.
@@ -128,6 +132,9 @@ macro_rules! debug_fmt {
             fn dbg(&self) -> String {
                 format!("{self:#?}")
             }
+            fn verify_(x: &[u8]) -> Option<bool> {
+                Some(<$t as CascFormat>::verify_round_trip(x).is_ok())
+            }
         }
     };
 }
@@ -149,6 +156,9 @@ macro_rules! casc_fmt {
             }
             fn dbg(&self) -> String {
                 format!("{self:#?}")
+            }
+            fn verify_(x: &[u8]) -> Option<bool> {
+                Some(<$t as CascFormat>::verify_round_trip(x).is_ok())
             }
         }
     };
@@ -193,15 +203,49 @@ casc_fmt!(EncodingFile, "EncodingFile", false, |s, _k| vec![
     ("ekey_entries", dh(&s.ekey_pages.iter().map(|p| &p.entries).collect::<Vec<_>>())),
     ("trailing_espec", dh(&s.trailing_espec)),
 ]);
-casc_fmt!(RootFile, "RootFile", false, |s, _k| vec![
-    ("version", dh(&s.version)),
-    ("records", {
-        // a manifest is a set of (flags, id, key, name hash) records: block and record order are layout
-        let mut recs: Vec<(u32, u64, u32, [u8; 16], Option<u64>)> = s.blocks.iter().flat_map(|b| b.records.iter().map(move |r| (b.locale_flags().value(), b.content_flags().value, r.file_data_id.get(), *r.content_key.as_bytes(), r.name_hash))).collect();
-        recs.sort_unstable();
-        dh(&recs)
-    }),
-]);
+pub const ROOT_V2_AMBIGUITY: &str = "v2-classic-header-counts-read-as-extended-header(total 16..99, named 1..4)";
+
+fn root_records_hash(s: &RootFile) -> u64 {
+    // a manifest is a set of (flags, id, key, name hash) records: block and record order are layout
+    let mut recs: Vec<(u32, u64, u32, [u8; 16], Option<u64>)> = s.blocks.iter().flat_map(|b| b.records.iter().map(move |r| (b.locale_flags().value(), b.content_flags().value, r.file_data_id.get(), *r.content_key.as_bytes(), r.name_hash))).collect();
+    recs.sort_unstable();
+    dh(&recs)
+}
+
+impl Fmt for RootFile {
+    const NAME: &'static str = "RootFile";
+    fn parse_(d: &[u8]) -> Result<Self, String> {
+        <RootFile as CascFormat>::parse(d).map_err(es)
+    }
+    fn build_(&self) -> Result<Vec<u8>, String> {
+        CascFormat::build(self).map_err(es)
+    }
+    fn project(&self, _k: &[String]) -> Projection {
+        vec![("version", dh(&self.version)), ("records", root_records_hash(self))]
+    }
+    fn dbg(&self) -> String {
+        format!("{self:#?}")
+    }
+    fn verify_(x: &[u8]) -> Option<bool> {
+        Some(<RootFile as CascFormat>::verify_round_trip(x).is_ok())
+    }
+    fn cause(x: &[u8], b1: &[u8]) -> Option<String> {
+        // A version-2 manifest is rebuilt with the classic 12-byte header 'TSFM total named'; the readers take
+        // (16..100, 1..=4) in these two words for (header_size, version) of an extended header. Whatever follows from
+        // that misreading is one defect with one class. (Cheap test on the bytes first, then the version of x.)
+        if b1.len() < 12 || &b1[..4] != b"TSFM" {
+            return None;
+        }
+        let w = |o: usize| u32::from_le_bytes([b1[o], b1[o + 1], b1[o + 2], b1[o + 3]]);
+        if !((16..100).contains(&w(4)) && (1..=4).contains(&w(8))) {
+            return None;
+        }
+        match cascette_formats::root::RootFile::parse(x) {
+            Ok(p) if p.version == cascette_formats::root::RootVersion::V2 => Some(ROOT_V2_AMBIGUITY.into()),
+            _ => None,
+        }
+    }
+}
 impl Fmt for TvfsFile {
     const NAME: &'static str = "TvfsFile";
     fn parse_(d: &[u8]) -> Result<Self, String> {
@@ -223,6 +267,9 @@ impl Fmt for TvfsFile {
     fn dbg(&self) -> String {
         format!("{self:#?}")
     }
+    fn verify_(x: &[u8]) -> Option<bool> {
+        Some(<TvfsFile as CascFormat>::verify_round_trip(x).is_ok())
+    }
     fn cause(x: &[u8], b1: &[u8]) -> Option<String> {
         // the rebuild re-derives table sizes in the header while the VFS table (and the entry stride of the
         // CFT) stay as parsed: if the implied offset-field widths differ, the tables no longer match the header
@@ -233,7 +280,11 @@ impl Fmt for TvfsFile {
     }
 }
 casc_fmt!(BuildConfig, "BuildConfig", true, |s, k| vec![("entries", dh(&k.iter().filter_map(|key| s.get(key).map(|v| (key, v))).collect::<Vec<_>>()))]);
-casc_fmt!(CdnConfig, "CdnConfig", true, |s, k| vec![("entries", dh(&k.iter().filter_map(|key| s.get(key).map(|v| (key, v))).collect::<Vec<_>>()))]);
+casc_fmt!(CdnConfig, "CdnConfig", true, |s, k| vec![
+    // the positional size list of the archives on its own, so that a finding about it has its own signature
+    ("archives-index-size", dh(&s.get("archives-index-size"))),
+    ("entries", dh(&k.iter().filter_map(|key| s.get(key).map(|v| (key, v))).collect::<Vec<_>>())),
+]);
 casc_fmt!(PatchConfig, "PatchConfig", true, |s, _k| vec![
     ("entries", dh(s.entries())),
     ("patch", dh(&(s.patch_hash(), s.patch_size()))),
